@@ -18,6 +18,7 @@ def run(repo, run, tier):
     run.analysed_fn(DS, m.fn)
     pruning(repo, run, m)
     bracket(repo, run, m)
+    ordering(repo, run)
 
 
 def pruning(repo, run, m):
@@ -120,3 +121,24 @@ def bracket(repo, run, m):
     run.judged(rid, "event functions are evaluated at (t, sol(t))", ok=oke)
     if not oke:
         run.report("C08.3", DS, inner, "an event search function does not evaluate the event at (t, sol(t))", text="event evaluation point")
+
+
+def ordering(repo, run):
+    """events found in a step are only DROPPED by the truncation after the first terminal one; for that to drop only later events the roots
+    must be ordered along the direction of integration (key of kind K = sign(dt) * t)."""
+    from ..kind import KindEngine, Seeds
+    rid = run.rule("C08.4", "the only place where found crossings are discarded (truncation after the first terminal event) acts on roots ordered by "
+                            "sign(t_next - t_prev) * root, so only crossings AFTER the terminal one are dropped", floor=1)
+    fn = repo.get(DS, "handle_events")
+    ke = KindEngine(fn, Seeds(params={}, names={"t_prev": "T", "t_next": "T", "roots": "Seq(T)"}), disciplines=("DIR",))
+    srt = [c for c in ast.walk(fn) if isinstance(c, ast.Call) and fname(c) in ("argsort", "sort", "sorted")]
+    if not srt:
+        run.judged(rid, "ordering present", ok=False)
+        run.report("C08.4", DS, fn, "events are truncated after the first terminal one without being ordered", text="missing ordering")
+    for c in srt:
+        k = ke.kind(c.args[0]) if c.args else "U"
+        ok = k == "K"
+        run.judged(rid, "%s [key kind %s]" % (src(c), k), ok=ok)
+        if not ok:
+            run.report("C08.4", DS, c, "the roots are ordered by a key of kind %s before the terminal truncation: for backward steps the order is reversed and crossings that "
+                                       "happen BEFORE the terminal event are discarded (never reported)" % (k,))
